@@ -149,6 +149,8 @@ type walker struct {
 	sites *[]site
 	stack []ast.Node
 	typed bool
+	// package-level slice variables initialised by a composite literal and never assigned: var -> number of elements
+	pkgLits map[*types.Var]int
 }
 
 func (w *walker) text(n ast.Node) string {
@@ -303,6 +305,54 @@ func isInteger(t types.Type) bool {
 	return ok && b.Info()&types.IsInteger != 0
 }
 
+const sizeNonNeg = "size is built from len(), cap(), non-negative constants, + and * only"
+const constIdxOK = "constant index within a package-level slice literal that is never assigned"
+
+// nonNegByConstruction: the expression cannot be negative whatever the input is.
+func (w *walker) nonNegByConstruction(e ast.Expr) bool {
+	if v, ok := w.isConst(e); ok {
+		return constant.Sign(v) >= 0
+	}
+	switch x := e.(type) {
+	case *ast.ParenExpr:
+		return w.nonNegByConstruction(x.X)
+	case *ast.CallExpr:
+		if id, ok := x.Fun.(*ast.Ident); ok && (id.Name == "len" || id.Name == "cap") {
+			if _, builtin := w.info.Uses[id].(*types.Builtin); builtin {
+				return true
+			}
+		}
+	case *ast.BinaryExpr:
+		if x.Op == token.ADD || x.Op == token.MUL {
+			return w.nonNegByConstruction(x.X) && w.nonNegByConstruction(x.Y)
+		}
+	}
+	return false
+}
+
+// constIndexContract: x[C] where x is a package-level variable initialised with a composite
+// literal of more than C elements and never assigned in the package.
+func (w *walker) constIndexContract(e *ast.IndexExpr) string {
+	v, ok := w.isConst(e.Index)
+	if !ok {
+		return ""
+	}
+	idx, exact := constant.Int64Val(v)
+	id, isIdent := e.X.(*ast.Ident)
+	if !exact || !isIdent {
+		return ""
+	}
+	obj, ok := w.info.Uses[id].(*types.Var)
+	if !ok || obj.Parent() != obj.Pkg().Scope() {
+		return ""
+	}
+	n, found := w.pkgLits[obj]
+	if !found || idx < 0 || idx >= int64(n) {
+		return ""
+	}
+	return fmt.Sprintf("%s (index %d, %d elements)", constIdxOK, idx, n)
+}
+
 func (w *walker) parent() ast.Node {
 	if len(w.stack) < 2 {
 		return nil
@@ -338,7 +388,7 @@ func (w *walker) Visit(n ast.Node) ast.Visitor {
 				fail("index of unexpected pointer type %s in %s", t, w.fn)
 			}
 		case *types.Slice, *types.Basic:
-			w.emit("index", e, "")
+			w.emit("index", e, w.constIndexContract(e))
 		default:
 			fail("index of unexpected type %s (%s) in %s", t, w.text(e), w.fn)
 		}
@@ -371,7 +421,17 @@ func (w *walker) Visit(n ast.Node) ast.Visitor {
 					case "make":
 						for _, a := range e.Args[1:] {
 							if _, c := w.isConst(a); !c {
-								w.emit("make", e, "")
+								contract := ""
+								all := true
+								for _, b := range e.Args[1:] {
+									if !w.nonNegByConstruction(b) {
+										all = false
+									}
+								}
+								if all {
+									contract = sizeNonNeg
+								}
+								w.emit("make", e, contract)
 								break
 							}
 						}
@@ -547,6 +607,58 @@ func main() {
 		if len(terrs) > 0 {
 			fail("type errors in %s (source importer offline?): %s", d, strings.Join(terrs[:min(len(terrs), 5)], "; "))
 		}
+		pkgLits := map[*types.Var]int{}
+		for _, f := range files {
+			for _, decl := range f.Decls {
+				gd, ok := decl.(*ast.GenDecl)
+				if !ok || gd.Tok != token.VAR {
+					continue
+				}
+				for _, sp := range gd.Specs {
+					vs := sp.(*ast.ValueSpec)
+					for i, name := range vs.Names {
+						if i < len(vs.Values) {
+							if cl, ok := vs.Values[i].(*ast.CompositeLit); ok {
+								if v, ok := info.Defs[name].(*types.Var); ok {
+									pkgLits[v] = len(cl.Elts)
+								}
+							}
+						}
+					}
+				}
+			}
+		}
+		for _, f := range files { // any assignment to (or address taken of) such a variable disqualifies it
+			ast.Inspect(f, func(n ast.Node) bool {
+				switch x := n.(type) {
+				case *ast.AssignStmt:
+					for _, l := range x.Lhs {
+						root := l
+						for {
+							if ie, ok := root.(*ast.IndexExpr); ok {
+								root = ie.X
+								continue
+							}
+							break
+						}
+						if id, ok := root.(*ast.Ident); ok {
+							if v, ok := info.Uses[id].(*types.Var); ok {
+								delete(pkgLits, v)
+							}
+						}
+					}
+				case *ast.UnaryExpr:
+					if x.Op == token.AND {
+						if id, ok := x.X.(*ast.Ident); ok {
+							if v, ok := info.Uses[id].(*types.Var); ok {
+								delete(pkgLits, v)
+							}
+						}
+					}
+				}
+				return true
+			})
+		}
 		for _, f := range files {
 			if !anchoredFiles[f] {
 				continue
@@ -577,7 +689,7 @@ func main() {
 					name = "var"
 					body = dd
 				}
-				w := &walker{fset: fset, info: info, fn: d + "." + name, sites: &sites}
+				w := &walker{fset: fset, info: info, fn: d + "." + name, sites: &sites, pkgLits: pkgLits}
 				ast.Walk(w, body)
 			}
 		}
